@@ -950,7 +950,7 @@ class Engine:
     def cut_loop(self, s, frame, spec, k, cond, pre_body, body, orelse, extra_havoc=(), hidden=None):
         pfx = self.vf.oid_prefix(frame)
         inv = list(spec.invariant) if spec else []
-        env_extra = dict(hidden or {})
+        env_extra = {k2: v2 for k2, v2 in (hidden or {}).items() if k2 != "__bound__"}
         # 1. invariant on entry
         for j, c in enumerate(inv):
             self.prove(f"{pfx}:inv-entry@loop{k}#{j + 1}", self.eval_goal(c, frame, extra=env_extra), "inv-entry", s, detail=c, frame=frame, extra=env_extra)
@@ -998,7 +998,10 @@ class Engine:
             for hn in list(hidden):
                 if hn.startswith("_it"):
                     hidden[hn] = VInt(z3.Int(fresh_name(hn)))
-            env_extra = dict(hidden)
+                    self.assume(hidden[hn].t >= 0)       # iteration counter
+                    if hidden.get("__bound__") is not None:
+                        self.assume(hidden[hn].t <= hidden["__bound__"].t)      # never beyond the iterable's length
+            env_extra = {k2: v2 for k2, v2 in hidden.items() if k2 != "__bound__"}
         self.loop_old[k] = pre
         # 3. assume invariant
         for c in inv:
@@ -1027,7 +1030,7 @@ class Engine:
             for hn in list(hidden):
                 if hn.startswith("_it"):
                     hidden[hn] = VInt(hidden[hn].t + 1)
-            env_extra = dict(hidden)
+            env_extra = {k2: v2 for k2, v2 in hidden.items() if k2 != "__bound__"}
         for j, c in enumerate(inv):
             self.prove(f"{pfx}:inv-preserved@loop{k}#{j + 1}", self.eval_goal(c, frame, extra=env_extra), "inv-preserved", s, detail=c, frame=frame, extra=env_extra)
         if m0 is not None:
@@ -1086,6 +1089,15 @@ class Engine:
 
             def pre_body(h):
                 self.assign(s.target, VInt(lo + h[f"_it{k}"].t), frame)
+        elif getattr(itd, "enum_of", None) is not None:
+            snap = itd.enum_of
+
+            def cond(h):
+                return h[f"_it{k}"].t < snap.n
+
+            def pre_body(h):
+                i = h[f"_it{k}"].t
+                self.assign(s.target, VTuple([VInt(i), self.wrap_elem(snap, snap.at(i))]), frame)
         elif isinstance(itd, VSeq):
             snap = itd
 
@@ -1108,6 +1120,14 @@ class Engine:
             raise OutOfSubset(s, f"for over {itd!r}")
         tnames, _, _ = assigned_names([ast.Assign(targets=[s.target], value=ast.Constant(value=0))])
         # the hidden index starts at 0: invariant entry is checked with _it = 0
+        bound = None
+        if rng is not None:
+            bound = count
+        elif getattr(itd, "enum_of", None) is not None:
+            bound = itd.enum_of.n
+        elif isinstance(itd, VSeq):
+            bound = itd.n
+        hidden["__bound__"] = VInt(bound) if bound is not None else None
         self.cut_loop(s, frame, spec, k, cond, pre_body, s.body, s.orelse, extra_havoc=tnames, hidden=hidden)
 
     # ---- try / with
@@ -1993,6 +2013,14 @@ class Engine:
                 self.set_attr(tgt, parts[-1], self.eval_spec(ex, cfr, extra=env), node)
             if con.returns == "self":
                 res = args[0]
+            elif con.returns.startswith("iter:"):
+                # an iterable whose items have a declared type and assumed properties (item_ensures)
+                res = VOpaque(tag=f"iter:{con.func}")
+                res.item_type = con.returns[5:]
+                res.item_ensures = list(con.options.get("item_ensures", []))
+                res.item_env = dict(env)
+                res.item_frame = cfr
+                res.iter_opaque = True
             else:
                 res = self.make(con.returns, f"ret_{con.func.split('.')[-1]}")
             env2 = dict(env)
